@@ -70,7 +70,7 @@ var declaredLimits = map[string][2]int64{
 func c14(c *Ctx) {
 	p, r := c.P, c.R
 	r.Technique = "schema engine: the SSZ layout of every fastssz-style struct is computed from field types and ssz tags and compared with the constants extracted (over go/ssa) from its decoder, encoder and size method; ordered field-list agreement of every ztyp codec's Deserialize / Serialize / ByteLength / FixedLength; totality and consistency of fork-digest tables"
-	r.Explanation = "Decides agreement of struct tags, encoder, decoder and size code with one computed schema and with the limits the statement declares: (R1) for every fastssz-style type the decoder's minimum/exact size, its offset reads (window, > size check, first offset == fixed-part size, monotone successors), its fixed windows and every limit constant (byte-list maxima, list maxima, element sizes, bit-list limit) equal the computed layout; the encoder's container offset and limits equal it (bit lists: the encoder may be looser by fastssz design); the size method starts from the fixed part; a bare list type (no container offset) must accept the 0-byte encoding of the empty list; (R2) the limits declared in the statement are the ones in the tags; (R3) for every ztyp codec the ordered list of fields handed to Deserialize, Serialize and ByteLength (and FixedLength where present) is the struct's field list, each once, in declaration order, and identical across the methods (HashTreeRoot lists are compared as an observation); (R4) each fork-tagged container's Deserialize and Serialize dispatch over the same fork cases with the same concrete types. Not decided: equality of values/bytes after a round trip; canonicality inside fastssz/ztyp helpers (fastssz UnmarshalDynamic accepts 00000000 as an empty list - dependency behaviour)."
+	r.Explanation = "Decides agreement of struct tags, encoder, decoder and size code with one computed schema and with the limits the statement declares: (R1) for every fastssz-style type the decoder's minimum/exact size, its offset reads (window, > size check, first offset == fixed-part size, monotone successors), its fixed windows and every limit constant (byte-list maxima, list maxima, element sizes, bit-list limit) equal the computed layout; the encoder's container offset and limits equal it (bit lists: the encoder may be looser by fastssz design); the size method starts from the fixed part; a bare list type (no container offset) must accept the 0-byte encoding of the empty list; (R2) the limits declared in the statement are the ones in the tags; (R3) for every ztyp codec the ordered list of fields handed to Deserialize, Serialize and ByteLength (and FixedLength where present) is the struct's field list, each once, in declaration order, and identical across the methods (HashTreeRoot lists are compared as an observation); (R4) each fork-tagged container's Deserialize and Serialize dispatch over the same fork cases with the same concrete types; (R5) Nibbles path prefix; (R6) no codec error is lost; (R7) the bytes an encoder returns do not alias storage it reuses for its next call (sync.Pool objects, package-level buffers). Not decided: equality of values/bytes after a round trip; canonicality inside fastssz/ztyp helpers (fastssz UnmarshalDynamic accepts 00000000 as an empty list - dependency behaviour)."
 	r.Assumptions = []string{"fastssz helper semantics (ReadOffset, DecodeDynamicLength, DivideInt2, ValidateBitlist, UnmarshalDynamic)", "ztyp codec.Container/FixedLenContainer/ContainerLength semantics"}
 	r.Floor("R1.decoder", 25)
 	r.Floor("R1.encoder", 25)
@@ -331,6 +331,45 @@ func c14(c *Ctx) {
 		}
 		sort.Strings(pkgs)
 		lostErrorRule(c, "R6.error-not-lost", "codec methods", roots, pkgs)
+		// R7: an encoding belongs to its caller: the bytes an encoder returns must not live in
+		// storage the encoder keeps for its next call (a pooled or package-level buffer) - the next
+		// encode overwrites "the encoding of A" and it then decodes to B
+		nEnc := 0
+		for _, fn := range roots {
+			if fn.Name() != "MarshalSSZ" && fn.Name() != "MarshalSSZTo" {
+				continue
+			}
+			if fn.Signature.Results().Len() == 0 {
+				continue
+			}
+			nEnc++
+			shared := ""
+			for _, ret := range core.Returns(fn) {
+				v := core.ResolveSpill(ret.Results[0])
+				core.Derives(v, func(x ssa.Value) bool {
+					switch y := x.(type) {
+					case *ssa.Call:
+						if id := core.CalleeID(y); id == "sync.(*Pool).Get" {
+							shared = "sync.Pool.Get at " + p.Pos(y.Pos())
+						}
+					case *ssa.Global:
+						if y.Pkg != nil && strings.HasPrefix(y.Pkg.Pkg.Path(), core.ModPath) {
+							if _, isSl := y.Type().(*types.Pointer).Elem().Underlying().(*types.Slice); isSl {
+								shared = "package variable " + y.Name()
+							}
+							if strings.HasSuffix(y.Type().String(), "bytes.Buffer") {
+								shared = "package variable " + y.Name()
+							}
+						}
+					}
+					return false
+				}, core.DeriveOpts{ThroughCalls: true})
+			}
+			if shared != "" {
+				r.Fail("R7.encoding-owned", core.FuncName(fn), p.Pos(fn.Pos()), "the bytes returned alias storage the encoder reuses ("+shared+"): an encoding still in use changes when another value is encoded, and decoding it no longer yields the value it was made from")
+			}
+		}
+		r.Check(nEnc >= 10, "R7.encoding-owned", "encoders inspected", "-", fmt.Sprintf("%d encoders return bytes that do not alias pooled or package-level storage", nEnc), fmt.Sprintf("only %d encoders found", nEnc))
 	}
 }
 
